@@ -18,6 +18,18 @@ ExpectedCalls(r, len) == LET RECURSIVE S(_)
                              S(g) == IF g = 0 THEN 0 ELSE (IF r.args.groups[g].known THEN CallCount(r.args.groups[g].uniq, len) ELSE 0) + S(g - 1)
                          IN S(Len(r.args.groups))
 ObsCalls(r, len) == Cardinality({i \in 1..Len(r.obs.calls) : r.obs.calls[i] = len})
+\* LCG path: observed pairs <<signatures, constants>> handed to the precomputation solver vs the specification, summed over the
+\* groups of the batch whose curve has shipped models (args.models[g] = sequence of <<S, m, w>>)
+LcgExpected(r, len, nc) == LET RECURSIVE SG(_)
+                               SG(g) == IF g = 0 THEN 0
+                                        ELSE (LET ms == r.args.models[g]
+                                                  k == r.args.groups[g].uniq
+                                                  RECURSIVE SM(_)
+                                                  SM(i) == IF i = 0 THEN 0 ELSE LcgCallCount(k, ms[i][1], ms[i][2], ms[i][3], len, nc) + SM(i - 1)
+                                              IN SM(Len(ms))) + SG(g - 1)
+                           IN SG(Len(r.args.groups))
+LcgObserved(r, len, nc) == Cardinality({i \in 1..Len(r.obs.lcgcalls) : r.obs.lcgcalls[i][1] = len /\ r.obs.lcgcalls[i][2] = nc})
+LcgPairs(r) == {<<r.obs.lcgcalls[i][1], r.obs.lcgcalls[i][2]>> : i \in 1..Len(r.obs.lcgcalls)}
 IsBiasCheck(c) == c \in {"CheckNonceMSB", "CheckNonceCommonPrefix", "CheckNonceCommonPostfix", "CheckNonceGeneralized"}
 Verdict(r) ==
   IF r.raised # "none" THEN "Total"
@@ -26,6 +38,9 @@ Verdict(r) ==
   ELSE IF \E i \in 1..Len(r.args.sigs) : G(r, i).cls = "healthy" /\ r.obs.flag[i] THEN "OtherIssuersKeepVerdict"
   ELSE IF IsBiasCheck(r.args.check) /\ r.obs.calls # <<-1>> /\
           (\E len \in 1..120 : ObsCalls(r, len) # ExpectedCalls(r, len)) THEN "WindowSizes"
+  ELSE IF r.args.check = "CheckLCGNonceGMP" /\ r.obs.lcgcalls # <<<<-1, -1>>>> /\
+          (\E pr \in LcgPairs(r) \cup {<<l, c>> \in (1..60) \X (1..40) : LcgExpected(r, l, c) > 0} :
+              LcgObserved(r, pr[1], pr[2]) # LcgExpected(r, pr[1], pr[2])) THEN "LcgSubsets"
   ELSE "ok"
 TInit == tid = 1 /\ RegInit /\ n = 0
 TNext == /\ tid <= NRecs
